@@ -17,6 +17,7 @@ PROP = dict(
         "MM.C16.C16_partial_statement",
         "MM.C16.C16_relay_frames_never_reach_exit",
         "MM.C16.C16_unclaimed_frame_leaves_relay_untouched",
+        "MM.C16.C16_relay_payload_unchanged",
         "MM.C16.C16_refuted",
         "MM.C16.C16_refuted_close_hits_other",
     ],
@@ -30,8 +31,7 @@ PROP = dict(
     nontrivial=lambda op, out: not op.startswith(("reset", "conn", "end")) and ("sent=[] " not in out or op.startswith(("t.", "close", "rst", "err", "disc"))),
     trusted_base=[
         "MM/Model/C16.lean models relay_table.go statement by statement and the relay branch of handleStreamOpen/OpenAck/OpenErr/Data/Close/"
-        "Reset, handleUDP*, handleICMP* (which entry a frame selects, where it is forwarded, what is removed); payload bytes are forwarded "
-        "unchanged by a transit and are not modelled",
+        "Reset, handleUDP*, handleICMP* (which entry a frame selects, where it is forwarded, what is removed); payload bytes and flags of relayed data/ack/err frames are part of the model and of the spec (forwarded unchanged, exactly once)",
         "peers are injected into the real peer.Manager without handshake; frames the agent sends are decoded from the peer's write buffer",
     ],
     assumptions=[
